@@ -437,23 +437,31 @@ def long_case(ctx, rng, method, Ndat, l, r, br, form, seed, extra=(), tag="long"
                       dict(case, t=int(ts[n]), entry=[i, a, j, b], deviating_t=[int(ts[m]) for m in badn[:20]]))
 
 
-def glue_case(ctx, cls, method, data, ref, br, inst_ok=True, tag="class-glue"):
-    """result.H of the algorithm class = Hankel matrix of (all channels, reference channels in the listed order); the
-    setup's records are not altered; a second run gives the same matrix."""
+def glue_case(ctx, cls, method, data, ref, br, inst_ok=True, tag="class-glue", ordmax=None):
+    """result.H of the algorithm class = Hankel matrix of (all channels, reference channels in the listed order) for the
+    br THE USER PASSED, whatever legal ordmax goes with it; the setup's records are not altered; a second run gives the
+    same matrix."""
     from pyoma2.algorithms import SSIcov
     from pyoma2.setup import SingleSetup
     l = data.shape[1]
     refl = list(range(l)) if ref is None else list(ref)
-    ordmax = min(4, (br + 1) * len(refl))
+    if ordmax is None:
+        ordmax = min(4, (br + 1) * len(refl))
     arr = data.copy()
     ss = SingleSetup(arr, fs=10.0)
     kw = dict(br=br, ordmax=ordmax, ref_ind=None if ref is None else list(ref))
     alg = cls(name="a", method=method, **kw) if cls is SSIcov else cls(name="a", **kw)
     ss.add_algorithms(alg)
-    ss.run_by_name("a")
-    Hc = np.array(alg.result.H)
-    case = dict(kind=tag, cls=cls.__name__, method=method, l=l, ref_ind=ref, br=br, data=data.tolist())
+    case = dict(kind=tag, cls=cls.__name__, method=method, l=l, ref_ind=ref, br=br, ordmax=ordmax, data=data.tolist())
     ctx.count(case)
+    ctx.hist("glue-ordmax", (br, len(refl), l, ordmax))
+    try:
+        ss.run_by_name("a")
+    except Exception as e:  # legal settings: nothing to observe is not a verdict on the layout, but the check no longer sees result.H
+        ctx.fail("correspondence", "%s(br=%d, ordmax=%d, ref_ind=%s).run raised %s: %s" % (cls.__name__, br, ordmax, ref, type(e).__name__, str(e)[:200]),
+                 case, key="C12:glue:%s:run-raised" % method)
+        return
+    Hc = np.array(alg.result.H)
     ctx.hist("glue-ref", (method, "None" if ref is None else "all-natural" if refl == list(range(l)) else "all-permuted" if sorted(refl) == list(range(l))
                           else "subset-sorted" if refl == sorted(refl) else "subset-unsorted"))
     key = "C12:glue:%s" % method
@@ -469,7 +477,8 @@ def glue_case(ctx, cls, method, data, ref, br, inst_ok=True, tag="class-glue"):
     Yrc = np.array(Yc[refl, :], copy=True)
     Hd = bh(ctx, Yc, Yrc, br, method)  # independent arrays: the form that the direct checks pin down
     if Hc.shape != Hd.shape:
-        ofail(ctx, key, "%s.result.H (ref_ind=%s) has shape %s, expected %s" % (cls.__name__, ref, Hc.shape, Hd.shape), case)
+        ofail(ctx, "C12:glue:%s:shape" % method, "%s(br=%d, ordmax=%d, ref_ind=%s).result.H has shape %s, expected %s = ((br+1)*%d channels, (br+1)*%d references) "
+              "for the br that was passed" % (cls.__name__, br, ordmax, ref, Hc.shape, Hd.shape, l, len(refl)), case)
         return
     if method == "dat":
         G, cond = projection_gram(Yc, Yrc, br)
@@ -496,6 +505,101 @@ def glue_case(ctx, cls, method, data, ref, br, inst_ok=True, tag="class-glue"):
         ofail(ctx, key, "%s.result.H (ref_ind=%s) is not build_hank(all channels, reference channels in listed order)" % (cls.__name__, ref), case)
 
 
+def multi_data(seed, ndats, nsens):
+    g = np.random.default_rng(seed)
+    return [g.integers(-64, 65, size=(nd, ns)) / 16.0 for nd, ns in zip(ndats, nsens)]
+
+
+def multi_case(ctx, clsname, method, datasets, ref_ind, br, ordmax, inst_ok=True, tag="multi-setup", desc=None):
+    """Multi-setup path (MultiSetup_PreGER -> SSIcov_MS / SSIdat_MS -> ssi.SSI_multi_setup): every per-setup Hankel matrix
+    is observed by wrapping pyoma2.functions.ssi.build_hank from here.  For setup k: data argument = [reference channels
+    in the listed order; remaining channels in natural order], reference argument = the reference records, br and method
+    as passed, result of shape (br+1)*(n_ref+n_mov) x (br+1)*n_ref with the entries of the definition."""
+    import inspect
+    import pyoma2.algorithms as algs
+    from pyoma2.setup import MultiSetup_PreGER
+    cls = getattr(algs, clsname)
+    case = dict(kind=tag, cls=clsname, method=method, br=br, ordmax=ordmax, ref_ind=ref_ind, shapes=[list(d.shape) for d in datasets],
+                datasets=desc if desc is not None else [d.tolist() for d in datasets])
+    ctx.count(case)
+    ctx.hist("multi", (method, [(len(r), d.shape[1] - len(r)) for r, d in zip(ref_ind, datasets)]))
+    orig = ssi.build_hank
+    sig = inspect.signature(orig)
+    calls = []
+
+    def recorder(*a, **k):
+        b = sig.bind(*a, **k)
+        b.apply_defaults()
+        Y, Yr = b.arguments["Y"], b.arguments["Yref"]
+        y0, r0 = np.array(Y, copy=True), np.array(Yr, copy=True)
+        out = orig(*a, **k)
+        calls.append(dict(Y=y0, Yref=r0, br=b.arguments["br"], method=b.arguments["method"], H=np.array(out[0], copy=True),
+                          altered=not (biteq(np.asarray(Y), y0) and biteq(np.asarray(Yr), r0))))
+        return out
+
+    raised = None
+    ssi.build_hank = recorder
+    try:
+        msp = MultiSetup_PreGER(fs=10.0, ref_ind=[list(r) for r in ref_ind], datasets=[d.copy() for d in datasets])
+        alg = cls(name="m", method=method, br=br, ordmax=ordmax) if clsname == "SSIcov_MS" else cls(name="m", br=br, ordmax=ordmax)
+        msp.add_algorithms(alg)
+        msp.run_by_name("m")
+    except Exception as e:
+        raised = "%s: %s" % (type(e).__name__, str(e)[:200])
+    finally:
+        ssi.build_hank = orig
+    nbad = 0
+    for k, c in enumerate(calls[:len(datasets)]):
+        d, ref = datasets[k], list(ref_ind[k])
+        mov = [i for i in range(d.shape[1]) if i not in ref]
+        n_ref, n_mov = len(ref), len(mov)
+        Yr_exp = np.ascontiguousarray(d[:, ref].T)
+        Y_exp = np.vstack([Yr_exp, d[:, mov].T])
+        casek = dict(case, setup=k, n_ref=n_ref, n_mov=n_mov)
+        key = "C12:multi:%s" % method
+        where = "%s, setup %d (n_ref=%d, n_mov=%d, br=%d)" % (clsname, k, n_ref, n_mov, br)
+        probs = []
+        if c["method"] != method or int(c["br"]) != br:
+            probs.append("build_hank is called with br=%s, method=%s instead of br=%d, method=%s" % (c["br"], c["method"], br, method))
+        if c["Y"].shape != Y_exp.shape or not np.array_equal(c["Y"], Y_exp):
+            probs.append("the data argument (shape %s) is not [reference records in listed order; moving records] (shape %s)" % (c["Y"].shape, Y_exp.shape))
+        if c["Yref"].shape != Yr_exp.shape or not np.array_equal(c["Yref"], Yr_exp):
+            probs.append("the reference argument has shape %s and is not the setup's %d reference records (channels %s)%s"
+                         % (c["Yref"].shape, n_ref, ref, ": it holds the first %d rows of [ref; mov]" % c["Yref"].shape[0]
+                            if c["Yref"].shape[0] <= Y_exp.shape[0] and np.array_equal(c["Yref"], Y_exp[:c["Yref"].shape[0]]) else ""))
+        H = c["H"]
+        want = ((br + 1) * (n_ref + n_mov), (br + 1) * n_ref)
+        if H.shape != want:
+            probs.append("expected H of shape %s = ((br+1)*(n_ref+n_mov), (br+1)*n_ref), got %s" % (want, H.shape))
+        else:
+            Hd = bh(ctx, Y_exp.copy(), Yr_exp.copy(), br, method)
+            if method == "dat":
+                G, cond = projection_gram(Y_exp, Yr_exp, br)
+                HH = H @ H.T
+                if G is None:
+                    ctx.not_judged += 1
+                elif not np.allclose(HH, np.trace(HH) / np.trace(G) * G, rtol=0, atol=1e-8 * np.abs(HH).max()):
+                    probs.append("H H^T is not a positive multiple of the Gram matrix of the projection of the setup's future outputs on its past reference outputs")
+                if not np.allclose(HH, Hd @ Hd.T, rtol=0, atol=1e-9 * np.abs(Hd @ Hd.T).max()):
+                    probs.append("Gram matrix differs from that of build_hank(setup records, setup references): trace %.6g against %.6g" % (np.trace(HH), np.trace(Hd @ Hd.T)))
+            else:
+                Hdef = independent_vec(method, Y_exp, Yr_exp, br) if inst_ok else Hd
+                if not np.allclose(H, Hdef, rtol=0, atol=1e-9 * max(1.0, np.abs(Hdef).max())):
+                    I, J = np.unravel_index(np.argmax(np.abs(H - Hdef)), H.shape)
+                    probs.append("entry (%d,%d) is %.6g, the definition (lag %s of channel %d with reference %d) gives %.6g"
+                                 % (I, J, H[I, J], "i+j+1" if method == "cov_mm" else "br+i-j", I % (n_ref + n_mov), J % n_ref, Hdef[I, J]))
+        if c["altered"]:
+            ofail(ctx, "C12:%s:input-altered" % method, "%s: build_hank altered its arguments in place" % where, casek)
+        if probs:
+            nbad += 1
+            ofail(ctx, key, "%s: %s" % (where, "; ".join(probs)), casek)
+    if len(calls) != len(datasets) and not nbad:
+        ctx.fail("correspondence", "%s(%s): %d build_hank calls observed for %d setups%s" % (clsname, method, len(calls), len(datasets), "" if raised is None else " (run raised %s)" % raised),
+                 case, key="C12:multi:%s:calls" % method)
+    elif raised is not None and not nbad:
+        ctx.note("multi-setup run raised after the Hankel matrices were built (not judged here): %s" % raised)
+
+
 def run_corpus(ctx, rng):
     from pyoma2.algorithms import SSIcov, SSIdat
     for path in sorted(glob.glob(os.path.join(VERIF, "corpus", "C12", "*.json"))):
@@ -507,7 +611,14 @@ def run_corpus(ctx, rng):
         elif c["kind"] == "long":
             long_case(ctx, rng, c["method"], c["Ndat"], c["l"], c["r"], c["br"], c["form"], c["data_seed"], extra=c.get("probe_t", ()), tag=tag)
         elif c["kind"] == "glue":
-            glue_case(ctx, SSIdat if c["cls"] == "SSIdat" else SSIcov, c["method"], np.array(c["data"], dtype=float), c["ref_ind"], c["br"], tag=tag)
+            glue_case(ctx, SSIdat if c["cls"] == "SSIdat" else SSIcov, c["method"], np.array(c["data"], dtype=float), c["ref_ind"], c["br"], tag=tag,
+                      ordmax=c.get("ordmax"))
+        elif c["kind"] == "multi":
+            ds = multi_data(c["data_seed"], c["ndats"], c["nsens"])
+            for clsname, method in c["runs"]:
+                multi_case(ctx, clsname, method, ds, c["ref_ind"], c["br"], c["ordmax"], tag=tag,
+                           desc="[default_rng(data_seed).integers(-64, 65, (ndat, nsens))/16 for ndat, nsens in zip(%s, %s)], drawn in this order, data_seed=%s"
+                           % (c["ndats"], c["nsens"], c["data_seed"]))
 
 
 def run(ctx):
@@ -516,7 +627,8 @@ def run(ctx):
                          "the data are not all zero and l*r*(br+1)>1; distinct by hash of (shape, data); plus: every way of passing the "
                          "reference records (same object / view / fancy copy / independent) with two builds each, records of 32.8k..131k "
                          "samples (definition in O(N) + single product weights by indicator probes), class glue for ref_ind None / all / "
-                         "permuted / subsets; every build_hank call is followed by a bit-comparison of its arguments")
+                         "permuted / subsets, ordmax swept to the largest legal order, multi-setup path (PreGER) with n_mov != n_ref observed "
+                         "by wrapping ssi.build_hank; every build_hank call is followed by a bit-comparison of its arguments")
     _CONV.clear()
     # ---- corpus first (failing inputs of changes that once slipped through)
     run_corpus(ctx, rng)
@@ -683,3 +795,34 @@ def run(ctx):
         for ref in refs:
             for cls, method in ((SSIcov, "cov_mm"), (SSIcov, "cov_R"), (SSIdat, "dat")):
                 glue_case(ctx, cls, method, data, ref, br, inst_ok=inst[method])
+
+    # ---- glue: ordmax swept up to the largest legal order min((br+1)*n_ref, br*n_channels) for proper reference subsets:
+    #      result.H keeps br+1 block rows/columns for the br that was passed
+    sweeps = [(3, [0], 2), (4, [2, 0], 2), (3, [1], 3)] if ctx.quick() else \
+        [(l, rng.permutation(l)[:nr].tolist(), br) for l in (2, 3, 4, 5) for nr in range(1, l) for br in (1, 2, 3, 4)]
+    if ctx.quick():
+        l = int(rng.integers(3, 6))
+        sweeps.append((l, rng.permutation(l)[:int(rng.integers(1, l))].tolist(), int(rng.integers(1, 4))))
+    for (l, ref, br) in sweeps:
+        data = dyad(rng, (300, l))
+        top = min((br + 1) * len(ref), br * l)
+        for cls, method in ((SSIcov, "cov_mm"), (SSIcov, "cov_R"), (SSIdat, "dat")):
+            for ordmax in range(1, top + 1):
+                if ordmax > br * len(ref) or ordmax in (1, top) or not ctx.quick() or rng.random() < 0.3:
+                    glue_case(ctx, cls, method, data, ref, br, inst_ok=inst[method], tag="class-glue-ordmax", ordmax=ordmax)
+
+    # ---- glue: multi-setup path with unequal numbers of reference and moving sensors
+    for k in range(ctx.n(3, 12)):
+        n_ref = [2, 1, 3][k % 3] if k < 3 else int(rng.integers(1, 4))
+        nset = int(rng.integers(2, 4)) if k else 3
+        n_mov = [max(1, n_ref - 1), n_ref + 1 + int(rng.integers(0, 2)), n_ref][:nset] if k < 3 else [int(rng.integers(1, 5)) for _ in range(nset)]
+        if all(m == n_ref for m in n_mov):
+            n_mov[0] = n_ref + 1
+        if k % 2:
+            n_mov = n_mov[::-1]
+        br = int(rng.integers(2, 5))
+        ordmax = int(rng.integers(2, min(4, br * n_ref) + 1)) if br * n_ref >= 2 else 1
+        datasets = [dyad(rng, (int(rng.integers(200, 320)), n_ref + m)) for m in n_mov]
+        ref_ind = [rng.permutation(d.shape[1])[:n_ref].tolist() for d in datasets]
+        for clsname, method in (("SSIcov_MS", "cov_mm"), ("SSIcov_MS", "cov_R"), ("SSIdat_MS", "dat")):
+            multi_case(ctx, clsname, method, datasets, ref_ind, br, ordmax, inst_ok=inst[method])
